@@ -216,4 +216,24 @@ for vi in range(6 if A.tier != "thorough" else 40):
         if v != ref:
             diff = [(a, b) for a, b in zip(ref[0], v[0]) if a != b][:2]
             R.fail("C11/select/noise", "C11:noise:alternatives", f"{nm} changed the numbers of a kernel with alternative port assignments: {diff} / {ref[1]} vs {v[1]}", dict(desc, variant=code))
+
+# ------------------------------------------------------------------ (3c) non-instruction lines that lift a kernel over the 50-line
+# threshold of the multi-process LCD search: the search mode changes, the numbers must not (a ring of 14 dependent adds is longer
+# than a worker's section)
+ring = ["addq %%r%d, %%r%d" % (8 + (i % 7), 8 + ((i + 1) % 7)) for i in range(7)] + ["vaddpd %%ymm1, %%ymm2, %%ymm%d" % (3 + i % 12) for i in range(38)]  # (no cycles of their own: the ring is the longest LCD)
+desc = dict(isa="x86", arch="zen2", body_lines=len(ring))
+R.case(("threshold", "ref"), sample=desc)
+try:
+    ref = numbers(run_cli("\n".join(ring) + "\n", ["--arch", "zen2"]))
+    for n_noise in (5, 6, 12):
+        noisy = list(ring)
+        for i in range(n_noise):
+            noisy.insert(1 + 3 * i, "# comment %d" % i)
+        R.case(("threshold", n_noise), sample=dict(desc, inserted=n_noise, lines=len(noisy)))
+        v = numbers(run_cli("\n".join(noisy) + "\n", ["--arch", "zen2"]))
+        if v != ref:
+            diff = [(a, b) for a, b in zip(ref[0], v[0]) if a != b][:2]
+            R.fail("C11/select/noise", "C11:noise:threshold", f"{n_noise} inserted comment lines ({len(noisy)} lines: multi-process LCD search) changed the numbers: {diff} / {ref[1]} vs {v[1]}", dict(desc, inserted=n_noise))
+except Exception as e:
+    R.fail("C11/select/noise-crash", "C11:noise-crash:x86", repr(e), desc)
 R.done()
